@@ -34,20 +34,20 @@ TEXT = {
               "writer's error, message = the cause's text) where l = faultSites[k], and faultSites has one entry per call (faultSites_length); "
               "faultSites is computed from the compiled tree by walking it in render order with the renderer's state (traceRoot, "
               "Proofs/RenderTrace.lean, proved against the interaction tree by induction over the node tree: sp_renderNode, sp_frender): a "
-              "write issued while a text, object, cycle or include node runs is located at that node (faultSite_text, faultSite_obj; an object and a raw block write through trimWriter.WriteVerbatim since the repair fixes/verbatim-output-not-trimmed - the flush of the text pending before them and the flush of each chunk of the value or slice of the body are issued while THAT node runs, so a failure to write a value is reported at the object that printed it and not at whatever wrote next), the "
+              "write issued while a text, object, cycle or include node runs is located at that node (faultSite_text, faultSite_obj; an object, a raw block and what a tag writes (cycle, include) go through trimWriter.WriteVerbatim since the repair fixes/verbatim-output-not-trimmed.patch (/repo 4126d59) - the flush of the text pending before them and the flush of each chunk of the value or slice of the body are issued while THAT node runs, so a failure to write a value is reported at the object that printed it and not at whatever wrote next), the "
               "cell tags of a tablerow at the tablerow tag, a raw block, a left trim marker and the flush of a block body or of the whole "
               "render at the invalid location (line 0, no path: faultSite_raw, faultSite_trim), and every enclosing block passes the site "
               "through relocate = parser.WrapError on locations (faultSite_if): a site with a line or a path is kept (relocate_located), the "
               "invalid location is replaced by the block tag's (relocate_invalid). Hence, in a template that has a path or no node at line 0, "
               "every site is the line of a node of the tree with the template's path, or the invalid location (fault_site_in_tree); below a "
               "node that has a location every site is a line of that node (located_node_fault_sites), and the sites of the render are those "
-              "of its top-level nodes in order, then the final flush (fault_sites_of_sequence, fault_sites_of_root): line 0 without a path "
-              "arises exactly for a write issued by a top-level raw block, a top-level left trim marker or the final flush. The list the "
+              "of its top-level nodes in order, then the final flush (fault_sites_of_sequence, fault_sites_of_root): under that hypothesis line 0 without a path "
+              "arises only for a write issued by a top-level raw block, a top-level trim marker or the final flush (a consequence of these theorems, not a theorem of its own). The list the "
               "stream compares with the real code is this list (faultErrs_are_faultSites). A panic that does not come "
               "from the writer's failure is C01's business, not proved here. From source bytes "
               '(Proofs.C20Source): for every source that compiles the same three facts hold of FRender on the compiled template '
-              '(source_faulty_prefix), and whenever run returns the output out, what a writer failing at any call k accepted is a prefix of '
-              'out (run_faulty_prefix, run_spell_faulty_prefix). Tie: the '
+              '(source_faulty_prefix), and whenever run returns the output out, what a writer failing at any call k below the number of fault-free calls accepted is a prefix of '
+              'out (run_faulty_prefix; run_spell_faulty_prefix: the prefix statement alone, for the spelling of an item list). Tie: the '
               '`faults` stream compares the sequence of underlying Write calls with the real FRender (templates without custom '
               'tags) and executes every single-fault plan (every call index, capped to the first and last 600 for runs of more '
               'than 1200 calls; none/half acceptance; fail-once/fail-forever) on the real code through FRender and ParseAndFRender.'),
@@ -57,9 +57,9 @@ TEXT = {
               "panics are C01's. The located-error theorems are about the model; that the real FRender reports the same line and path flag is "
               'the comparison of the flocs field on every case, not a theorem about the Go code. In a template WITHOUT a path a node at line 0 '
               '(start line 0) carries no more information than the invalid location and is re-located by the enclosing block like it: '
-              'fault_site_in_tree and located_node_fault_sites assume a path or no node at line 0, frender_faulty_located does not. Trial of the tie: with '
-              'TextNode.render changed to wrap the writer\'s error at invalidLoc instead of at the node (every clause of the oracle still holds) '
-              '110 of the 650 quick cases disagree with the model in the flocs field. The stream explores at most 1200 call indices per run (first and '
+              'fault_site_in_tree and located_node_fault_sites assume a path or no node at line 0, frender_faulty_located does not. Trial of the tie (run once, when the flocs field was added; not repeated by the check): with '
+              'TextNode.render changed to wrap the writer\'s error at invalidLoc instead of at the node (every clause of the oracle still held) '
+              '110 of the then 650 quick cases disagreed with the model in the flocs field. The stream explores at most 1200 call indices per run (first and '
               'last 600) and runs templates with the engine-registered custom tags through the oracle only.'),
     "technique": ('Lean 4 proof (inductive Stops predicate on interaction trees and a location trace of the node tree, both by induction over the render tree) + '
               'model/implementation correspondence of Write-call sequences and of the location of every single-fault error + fault injection at every call index (first and last 600 beyond 1200 calls) on the implementation'),
